@@ -736,3 +736,32 @@ Qed.
 Theorem wf_reachable_guarded c ops : sane_cfg c = true -> guarded_run (init c) ops = true ->
   wfb (fst (run_ops (init c) ops)) = true.
 Proof. intros Hs Hg. apply INV_wfb. apply INV_run; [apply INV_init; exact Hs|exact Hg]. Qed.
+
+(* the structural half needs no guard: every call sequence, in the three sane flavours *)
+Lemma S_run c ops : sane_cfg c = true -> S_inv (fst (run_ops (init c) ops)).
+Proof. intros H. apply run_ops_inv; [apply S_step|apply S_init; exact H]. Qed.
+
+Lemma INV_reachable_guarded c ops : sane_cfg c = true -> guarded_run (init c) ops = true ->
+  INV (fst (run_ops (init c) ops)).
+Proof. intros Hs Hg. apply INV_run; [apply INV_init; exact Hs|exact Hg]. Qed.
+
+(* the calls an engine makes (clean_op) satisfy the guard *)
+Lemma clean_op_guard s o : clean_op s (shape_of o) = true -> guard_op s o = true.
+Proof.
+  destruct o; simpl; auto.
+  - intros H. apply andb_true_iff in H as [H1 H3]. apply andb_true_iff in H1 as [_ H2].
+    apply andb_true_iff. split; [destruct p; [discriminate|reflexivity]|].
+    destruct (get_live s k) as [[r x]|]; [|reflexivity]. apply andb_true_iff in H3 as [_ H3]. exact H3.
+  - intros H. apply andb_true_iff in H as [_ H].
+    destruct (get_live s k) as [[r x]|]; [|reflexivity]. destruct (o_path x); [discriminate|reflexivity].
+Qed.
+
+Lemma clean_run_guarded ops : forall s, clean_run s ops = true -> guarded_run s ops = true.
+Proof.
+  induction ops as [|o t IH]; intros s H; simpl in *; [reflexivity|].
+  apply andb_true_iff in H as [H1 H2]. rewrite (clean_op_guard s o H1). simpl. apply IH. exact H2.
+Qed.
+
+Theorem wf_reachable_clean c ops : sane_cfg c = true -> clean_run (init c) ops = true ->
+  wfb (fst (run_ops (init c) ops)) = true.
+Proof. intros Hs Hc. apply wf_reachable_guarded; [exact Hs|apply clean_run_guarded; exact Hc]. Qed.
